@@ -27,6 +27,7 @@ type wop struct {
 }
 
 type c05Params struct {
+	Prop    string // property the violations are reported under (default C05)
 	Name    string
 	K       connCfg
 	Writers [][]wop // one program per writer task
@@ -193,12 +194,16 @@ func c05Setup(prm c05Params) func(c *fw.Ctx, name string) explore.Setup {
 
 func c05Oracle(c *fw.Ctx, w *vs.World, name string, prm c05Params, st *c05State) {
 	role := prm.K.String()
+	pp := prm.Prop
+	if pp == "" {
+		pp = "C05"
+	}
 	if w.Panic != "" {
-		violate(c, w, name, "C05/panic/"+prm.Name, w.Panic)
+		violate(c, w, name, pp+"/panic/"+prm.Name, w.Panic)
 		return
 	}
 	if w.HorizonHit {
-		violate(c, w, name, "C05/no-termination/"+prm.Name+"/"+role, "execution passed the virtual-time horizon with required tasks unfinished")
+		violate(c, w, name, pp+"/no-termination/"+prm.Name+"/"+role, "execution passed the virtual-time horizon with required tasks unfinished")
 		return
 	}
 	if w.Deadlock && prm.Closer == "cancel0" {
@@ -214,17 +219,17 @@ func c05Oracle(c *fw.Ctx, w *vs.World, name string, prm c05Params, st *c05State)
 				stuck = append(stuck, t.Name)
 			}
 		}
-		violate(c, w, name, "C05/deadlock/"+prm.Name+"/"+role, fmt.Sprintf("deadlock: tasks %v never return", stuck))
+		violate(c, w, name, pp+"/deadlock/"+prm.Name+"/"+role, fmt.Sprintf("deadlock: tasks %v never return", stuck))
 		return
 	}
 	res := frame.Validate(st.p.Out, frame.StreamRules{SenderIsClient: prm.K.Client, Deflate: prm.K.Flate})
 	out := ""
 	for _, v := range res.Violations {
-		violate(c, w, name, "C05/wire/"+v.Rule+"/"+prm.Name+"/"+role, fmt.Sprintf("%v\nwire: %s", v, describeFrames(res.Frames)))
+		violate(c, w, name, pp+"/wire/"+v.Rule+"/"+prm.Name+"/"+role, fmt.Sprintf("%v\nwire: %s", v, describeFrames(res.Frames)))
 		return
 	}
 	if len(res.Rest) > 0 && !st.p.Closed {
-		violate(c, w, name, "C05/wire/truncated-frame-on-open-transport/"+prm.Name+"/"+role, fmt.Sprintf("stream ends inside a frame (%d stray bytes) although the transport was never closed\nwire: %s", len(res.Rest), describeFrames(res.Frames)))
+		violate(c, w, name, pp+"/wire/truncated-frame-on-open-transport/"+prm.Name+"/"+role, fmt.Sprintf("stream ends inside a frame (%d stray bytes) although the transport was never closed\nwire: %s", len(res.Rest), describeFrames(res.Frames)))
 		return
 	}
 	// reassembled messages must each equal exactly one written message, at most once, in per-writer order
@@ -240,7 +245,7 @@ func c05Oracle(c *fw.Ctx, w *vs.World, name string, prm c05Params, st *c05State)
 			var err error
 			pl, err = inf.Message(m.Payload)
 			if err != nil {
-				violate(c, w, name, "C05/wire/undecodable-compressed-message/"+prm.Name+"/"+role, fmt.Sprintf("message %d does not inflate: %v", mi, err))
+				violate(c, w, name, pp+"/wire/undecodable-compressed-message/"+prm.Name+"/"+role, fmt.Sprintf("message %d does not inflate: %v", mi, err))
 				return
 			}
 		}
@@ -252,12 +257,12 @@ func c05Oracle(c *fw.Ctx, w *vs.World, name string, prm c05Params, st *c05State)
 			}
 		}
 		if match == nil {
-			violate(c, w, name, "C05/wire/message-not-written/"+prm.Name+"/"+role, fmt.Sprintf("message %d on the wire (type %d, %d bytes, first bytes %x) equals no written message (or is a duplicate)\nwire: %s", mi, m.Opcode, len(pl), head(pl), describeFrames(res.Frames)))
+			violate(c, w, name, pp+"/wire/message-not-written/"+prm.Name+"/"+role, fmt.Sprintf("message %d on the wire (type %d, %d bytes, first bytes %x) equals no written message (or is a duplicate)\nwire: %s", mi, m.Opcode, len(pl), head(pl), describeFrames(res.Frames)))
 			return
 		}
 		seen[match] = true
 		if li, ok := lastIdx[match.task]; ok && match.idx < li {
-			violate(c, w, name, "C05/wire/per-writer-order/"+prm.Name+"/"+role, fmt.Sprintf("writer %d: message %d arrives after message %d", match.task, match.idx, li))
+			violate(c, w, name, pp+"/wire/per-writer-order/"+prm.Name+"/"+role, fmt.Sprintf("writer %d: message %d arrives after message %d", match.task, match.idx, li))
 			return
 		}
 		lastIdx[match.task] = match.idx
@@ -266,7 +271,7 @@ func c05Oracle(c *fw.Ctx, w *vs.World, name string, prm c05Params, st *c05State)
 	// a write that returned nil is on the wire completely
 	for _, wm := range st.msgs {
 		if wm.done && wm.err == nil && !seen[wm] {
-			violate(c, w, name, "C05/acked-write-missing/"+prm.Name+"/"+role, fmt.Sprintf("writer %d message %d returned nil but is not (completely) on the wire\nwire: %s", wm.task, wm.idx, describeFrames(res.Frames)))
+			violate(c, w, name, pp+"/acked-write-missing/"+prm.Name+"/"+role, fmt.Sprintf("writer %d message %d returned nil but is not (completely) on the wire\nwire: %s", wm.task, wm.idx, describeFrames(res.Frames)))
 			return
 		}
 		out += fmt.Sprintf("e%d.%d=%v ", wm.task, wm.idx, wm.err != nil)
@@ -275,12 +280,12 @@ func c05Oracle(c *fw.Ctx, w *vs.World, name string, prm c05Params, st *c05State)
 	if prm.Closer == "" {
 		for _, wm := range st.msgs {
 			if wm.err != nil {
-				violate(c, w, name, "C05/write-failed-without-close/"+prm.Name+"/"+role, fmt.Sprintf("writer %d message %d failed: %v", wm.task, wm.idx, wm.err))
+				violate(c, w, name, pp+"/write-failed-without-close/"+prm.Name+"/"+role, fmt.Sprintf("writer %d message %d failed: %v", wm.task, wm.idx, wm.err))
 				return
 			}
 		}
 		if prm.Pinger && st.pingErr != nil {
-			violate(c, w, name, "C05/ping-failed-without-close/"+prm.Name+"/"+role, fmt.Sprintf("ping failed: %v", st.pingErr))
+			violate(c, w, name, pp+"/ping-failed-without-close/"+prm.Name+"/"+role, fmt.Sprintf("ping failed: %v", st.pingErr))
 			return
 		}
 	}
@@ -510,7 +515,32 @@ func c05RaceScenarios(tier string) []scenario {
 	return out
 }
 
+// c02Scenarios: the emitted-stream rules of C02 (masking with a fresh key per
+// frame, fragment grammar, control frames) under concurrent callers: the
+// pinger/writer/closer harness bodies of C05 with the wire oracle reported
+// under C02.
+func c02Scenarios(tier string) []scenario {
+	var scs []scenario
+	p := 1
+	if tier == "thorough" {
+		p = 2
+	}
+	for _, k := range []connCfg{{Client: true}, {Client: false}, {Client: true, Flate: true}} {
+		for _, prm := range []c05Params{
+			{Prop: "C02", Name: "WP", K: k, Writers: [][]wop{{{Stream: true, Chunks: []int{5, 5}}}}, Pinger: true},
+			{Prop: "C02", Name: "WC-Close", K: k, Closer: "Close", Writers: [][]wop{{{Chunks: []int{10}}}, {{Stream: true, Text: true, Chunks: []int{5, 5}}}}},
+		} {
+			scs = append(scs, scenario{Name: prm.Name + "/" + k.String(), Cfg: explore.Config{P: p, Horizon: 60e9}, Setup: c05Setup(prm)})
+		}
+	}
+	return scs
+}
+
 func init() {
+	fw.Register(fw.Part{Prop: "C02", Name: "s.wire",
+		Units:  func(tier string) []fw.Unit { return scenarioUnits(c02Scenarios(tier)) },
+		Replay: replayFn(c02Scenarios),
+	})
 	fw.Register(fw.Part{Prop: "C05R", Name: "s.race",
 		Units:  func(tier string) []fw.Unit { return scenarioUnits(c05RaceScenarios(tier)) },
 		Replay: replayFn(c05RaceScenarios),
